@@ -22,15 +22,15 @@ type pathCand struct {
 	Path []string
 	Leaf reflect.Type // declared type at the end; for Dyn paths the type the benign dynamic value will have
 	// source side
-	Dyn     bool         // the path continues below an interface-typed position: only checkable at run time
-	IfaceT  reflect.Type // declared type of the first interface-typed position
-	IfaceAt int          // len of the prefix that ends at the first interface-typed position the path passes through or ends at (-1: none)
-	Ifaces  []int        // Dyn: len of every prefix that ends at an interface-typed position which the path continues through
+	Dyn     bool           // the path continues below an interface-typed position: only checkable at run time
+	IfaceT  reflect.Type   // declared type of the first interface-typed position
+	IfaceAt int            // len of the prefix that ends at the first interface-typed position the path passes through or ends at (-1: none)
+	Ifaces  []int          // Dyn: len of every prefix that ends at an interface-typed position which the path continues through
 	IfaceTs []reflect.Type // Dyn: declared (interface) type of each of them
-	Roles   []roleReq    // dynamic types that interface-typed positions must hold for the path to exist / the value to fit the target
-	PtrAt   int          // len of the first prefix that ends at a pointer which the path continues through (-1: none); 0 = the root value
-	MapAt   int          // len of the first prefix that ends at a map in which the path looks up a key (-1: none); 0 = the root value
-	Nested  bool         // passes through a pointer to pointer
+	Roles   []roleReq      // dynamic types that interface-typed positions must hold for the path to exist / the value to fit the target
+	PtrAt   int            // len of the first prefix that ends at a pointer which the path continues through (-1: none); 0 = the root value
+	MapAt   int            // len of the first prefix that ends at a map in which the path looks up a key (-1: none); 0 = the root value
+	Nested  bool           // passes through a pointer to pointer
 	// target side
 	StructEntry string // joined prefix that ends at an entry of a map with struct (non-pointer) elements below which the path continues
 	Shape       string // container kinds along the path: S struct field, M map key, A any hole, P pointer deref
@@ -195,6 +195,7 @@ type Case struct {
 	Maps     []mapping
 	Statics  []staticVal
 	Overlap  bool   // by the reference predicate
+	Inj      string // the kind of the one declaration that was added last to make the targets overlap ("" none)
 	Hazard   string // the single hostile element put on a used path ("" none)
 	Struct   string // structural feature of the mapping set that is known to be delicate ("" none)
 	Seed     string // input of START when START is not a typed predecessor
@@ -208,6 +209,51 @@ func (c *Case) startPred() *pred {
 		}
 	}
 	return nil
+}
+
+// skeleton: the case without the declaration that was added to make the targets
+// overlap (nil if there is none): a non-overlapping set in the same types, with the
+// same ways of declaring the predecessors. It tells whether Compile refuses the
+// overlapping set for another reason than the overlap.
+func (c *Case) skeleton() *Case {
+	c2 := *c
+	c2.Overlap, c2.Inj = false, ""
+	c2.Maps = append([]mapping(nil), c.Maps...)
+	c2.Statics = append([]staticVal(nil), c.Statics...)
+	preds := append([]*pred(nil), c.Preds...)
+	switch c.Inj {
+	case "mapping":
+		c2.Maps = c2.Maps[:len(c2.Maps)-1]
+	case "static":
+		c2.Statics = c2.Statics[:len(c2.Statics)-1]
+	case "whole-input":
+		if n := len(preds) - 1; n >= 0 && preds[n].Whole {
+			preds = preds[:n]
+		} else {
+			return nil
+		}
+	default:
+		return nil
+	}
+	used := map[int]bool{}
+	for _, m := range c2.Maps {
+		used[m.Pred] = true
+	}
+	remap := map[int]int{}
+	c2.Preds = nil
+	for i, p := range preds {
+		if used[i] || p.Whole {
+			remap[i] = len(c2.Preds)
+			c2.Preds = append(c2.Preds, p)
+		}
+	}
+	for i := range c2.Maps {
+		c2.Maps[i].Pred = remap[c2.Maps[i].Pred]
+	}
+	if len(c2.Preds) == 0 || c2.computeOverlap() {
+		return nil
+	}
+	return &c2
 }
 
 // targets lists every declared target with its kind, in a fixed order: mappings,
@@ -782,8 +828,17 @@ func tryGenCase(r *mon.Rand) *Case {
 	}
 
 	if wantOverlap && c.Tgt != tString {
+		nm0, np0, ns0 := len(c.Maps), len(c.Preds), len(c.Statics)
 		if !injectOverlap(r, c, tcs, addMapping) {
 			return nil
+		}
+		switch {
+		case len(c.Maps) == nm0+1 && len(c.Preds) == np0 && len(c.Statics) == ns0:
+			c.Inj = "mapping"
+		case len(c.Preds) == np0+1 && len(c.Maps) == nm0 && len(c.Statics) == ns0:
+			c.Inj = "whole-input"
+		case len(c.Statics) == ns0+1 && len(c.Maps) == nm0 && len(c.Preds) == np0:
+			c.Inj = "static"
 		}
 	}
 	c.Overlap = c.computeOverlap()
@@ -1105,7 +1160,7 @@ func genValues(r *mon.Rand, c *Case, roles map[string]reflect.Type) {
 		}
 	}
 	// at most one hostile element, and only if the set has no delicate structure already
-	if c.Struct == "" && !c.Overlap && r.Prob(0.4) {
+	if (c.Struct == "" || c.Struct == fRtWithOthers) && !c.Overlap && r.Prob(0.5) {
 		injectHazard(r, c, roots)
 	}
 	for i, p := range c.Preds {
@@ -1170,6 +1225,16 @@ func (c *Case) classOf(m mapping, root reflect.Value) string {
 
 func injectHazard(r *mon.Rand, c *Case, roots []reflect.Value) {
 	order := r.Perm(len(c.Maps))
+	if r.Prob(0.6) {
+		// mappings whose source path continues two or more steps below an interface-typed position first
+		sort.SliceStable(order, func(i, j int) bool {
+			deep := func(k int) bool {
+				sc := c.Maps[order[k]].src
+				return sc.Dyn && len(sc.Path)-sc.IfaceAt >= 2
+			}
+			return deep(i) && !deep(j)
+		})
+	}
 	for _, mi := range order {
 		m := c.Maps[mi]
 		sc := m.src
@@ -1208,7 +1273,7 @@ func injectHazard(r *mon.Rand, c *Case, roots []reflect.Value) {
 				set(at, map[int]string{1: "x"}, "interface-source-holds-map-with-non-string-key"),
 				set(at, map[string]any{"other": 1}, "interface-source-holds-map-without-the-key"))
 			// the first j steps exist below the interface (all concretely typed), step j+1 does not
-			for rep := 0; rep < 3 && len(steps) >= 2; rep++ {
+			for rep := 0; rep < 6 && len(steps) >= 2; rep++ {
 				j := r.Range(1, len(steps)-1)
 				hl := hostileLeaves(r, steps[j])
 				x := hl[r.Intn(len(hl))]
